@@ -284,6 +284,14 @@ def isEmpty (s : State) (k : Nat) : Bool :=
   | some .empty => true
   | _ => false
 
+/-- the `ChunkPolicy` template argument of the object in slot `k` (`none` for an empty slot): part of
+    its C++ *type*, so copy/move construction preserve it and assignment requires it to agree -/
+def slotKind (s : State) (k : Nat) : Option PolicyKind :=
+  match s.slots[k]? with
+  | some (.live _ cp) => some cp.kind
+  | some (.moved cp) => some cp.kind
+  | _ => none
+
 /-- bytes lost by `AlignBuffer` for a buffer whose address is `≡ misalign (mod 8)` -/
 def alignLoss (misalign : Nat) : Nat := if misalign % 8 ≠ 0 then 8 - misalign % 8 else 0
 
@@ -296,8 +304,10 @@ def Op.pre (s : State) : Op → Bool
       decide (alignLoss misalign + (SIZEOF_SHARED_DATA + SIZEOF_CHUNK_HEADER) ≤ bufsize)
   | .copy dst src => isEmpty s dst && isLive s src
   | .move dst src => isEmpty s dst && isLive s src
-  | .assign dst src => !isEmpty s dst && decide (dst < 8) && isLive s src
-  | .massign dst src => !isEmpty s dst && decide (dst < 8) && isLive s src && decide (dst ≠ src)
+  | .assign dst src => !isEmpty s dst && decide (dst < 8) && isLive s src &&
+      decide (slotKind s dst = slotKind s src)
+  | .massign dst src => !isEmpty s dst && decide (dst < 8) && isLive s src && decide (dst ≠ src) &&
+      decide (slotKind s dst = slotKind s src)
   | .destroy slot => !isEmpty s slot && decide (slot < 8)
   | .malloc slot size => isLive s slot && decide (size < maxSize)
   | .realloc slot blk oldsize newsize =>
